@@ -598,23 +598,102 @@ theorem keys_nodup_tagFold {α : Type} (f : Str → Str) (it : α) (ts : List St
   | nil => intro g h; exact h
   | cons t ts ih => intro g h; exact ih _ (keys_nodup_appendAt g _ it h)
 
+/-- The keys of one operation's tags with repetitions dropped, first occurrence kept (`keys_of_op`). -/
+def firstKeys : List Str → List Str → List Str
+  | _, [] => []
+  | seen, k :: ks => if seen.contains k then firstKeys seen ks else k :: firstKeys (k :: seen) ks
+
+theorem mem_firstKeys (k : Str) : ∀ (ks seen : List Str), k ∈ firstKeys seen ks ↔ k ∈ ks ∧ k ∉ seen := by
+  intro ks
+  induction ks with
+  | nil => intro seen; simp [firstKeys]
+  | cons x xs ih =>
+    intro seen
+    simp only [firstKeys]
+    split
+    · rename_i h
+      have hx : x ∈ seen := List.contains_iff_mem.1 h
+      rw [ih]
+      constructor
+      · exact fun h => ⟨List.mem_cons_of_mem _ h.1, h.2⟩
+      · rintro ⟨h1, h2⟩
+        rcases List.mem_cons.1 h1 with rfl | h1
+        · exact absurd hx h2
+        · exact ⟨h1, h2⟩
+    · rename_i h
+      have hx : x ∉ seen := fun hm => h (List.contains_iff_mem.2 hm)
+      rw [List.mem_cons, ih]
+      constructor
+      · rintro (rfl | ⟨h1, h2⟩)
+        · exact ⟨by simp, hx⟩
+        · exact ⟨List.mem_cons_of_mem _ h1, fun hm => h2 (List.mem_cons_of_mem _ hm)⟩
+      · rintro ⟨h1, h2⟩
+        by_cases hk : k = x
+        · exact Or.inl hk
+        · right
+          rcases List.mem_cons.1 h1 with h1 | h1
+          · exact absurd h1 hk
+          · exact ⟨h1, by simp [hk, h2]⟩
+
+theorem firstKeys_nodup : ∀ (ks seen : List Str), (firstKeys seen ks).Nodup := by
+  intro ks
+  induction ks with
+  | nil => intro _; exact List.nodup_nil
+  | cons x xs ih =>
+    intro seen
+    simp only [firstKeys]
+    split
+    · exact ih seen
+    · rw [List.nodup_cons]
+      refine ⟨fun hm => ?_, ih _⟩
+      have := ((mem_firstKeys x xs (x :: seen)).1 hm).2
+      simp at this
+
+/-- The inner loop is the fold over the operation's distinct keys. -/
+theorem addOpTags_eq {α : Type} (u : UInfo) (it : α) : ∀ (ts seen : List Str) (g : List (Str × List α)),
+    addOpTags u it seen ts g = (firstKeys seen (ts.map (normTagKey u))).foldl (fun g k => appendAt g k it) g := by
+  intro ts
+  induction ts with
+  | nil => intro _ _; rfl
+  | cons t ts ih =>
+    intro seen g
+    simp only [addOpTags, List.map_cons, firstKeys]
+    split
+    · exact ih seen g
+    · rw [ih]; rfl
+
+/-- The normalised keys of an operation's tags (or of `default`), each once, in order of first occurrence. -/
+def opKeys (u : UInfo) (o : IROp) : List Str := firstKeys [] ((opTags o).map (normTagKey u))
+
+theorem mem_opKeys (u : UInfo) (o : IROp) (k : Str) : k ∈ opKeys u o ↔ k ∈ (opTags o).map (normTagKey u) := by
+  unfold opKeys; rw [mem_firstKeys]; simp
+
+theorem opKeys_nodup (u : UInfo) (o : IROp) : (opKeys u o).Nodup := firstKeys_nodup _ _
+
 theorem findKey_groupFold (u : UInfo) (key : Str) (items : List (IROp × Str)) :
     ∀ g : List (Str × List (IROp × Str)),
-      findKey (items.foldl (fun g it => (opTags it.1).foldl (fun g t => appendAt g (normTagKey u t) it) g) g) key
+      findKey (items.foldl (fun g it => addOpTags u it [] (opTags it.1) g) g) key
         = findKey g key ++
-          items.flatMap (fun it => ((opTags it.1).filter (fun t => normTagKey u t == key)).map (fun _ => it)) := by
+          items.flatMap (fun it => ((opKeys u it.1).filter (fun k => k == key)).map (fun _ => it)) := by
   induction items with
   | nil => intro g; simp
   | cons it rest ih =>
     intro g
-    simp only [List.foldl_cons, ih, findKey_tagFold, List.flatMap_cons, List.append_assoc]
+    simp only [List.foldl_cons, List.flatMap_cons]
+    rw [ih, addOpTags_eq, findKey_tagFold (fun k => k) it key, List.append_assoc]
+    rfl
 
 theorem keys_nodup_groupFold (u : UInfo) (items : List (IROp × Str)) :
     ∀ g : List (Str × List (IROp × Str)), (g.map (·.1)).Nodup →
-      ((items.foldl (fun g it => (opTags it.1).foldl (fun g t => appendAt g (normTagKey u t) it) g) g).map (·.1)).Nodup := by
+      ((items.foldl (fun g it => addOpTags u it [] (opTags it.1) g) g).map (·.1)).Nodup := by
   induction items with
   | nil => intro g h; exact h
-  | cons it rest ih => intro g h; exact ih _ (keys_nodup_tagFold _ it _ g h)
+  | cons it rest ih =>
+    intro g h
+    simp only [List.foldl_cons]
+    apply ih
+    rw [addOpTags_eq]
+    exact keys_nodup_tagFold (fun k => k) it _ g h
 
 theorem findKey_map {α β : Type} (f : α → β) (g : List (Str × List α)) (key : Str) :
     findKey (g.map (fun e => (e.1, e.2.map f))) key = (findKey g key).map f := by
@@ -632,12 +711,34 @@ def clientMethods (u : UInfo) (direct : Bool) (ops : List IROp) (key : Str) : Li
 theorem clientMethods_eq (u : UInfo) (direct : Bool) (ops : List IROp) (key : Str) :
     clientMethods u direct ops key =
       (ops.zip (finalMethodNames direct ops)).flatMap
-        (fun it => ((opTags it.1).filter (fun t => normTagKey u t == key)).map (fun _ => it.2)) := by
+        (fun it => ((opKeys u it.1).filter (fun k => k == key)).map (fun _ => it.2)) := by
   unfold clientMethods clients
   rw [findKey_map]
   unfold groupByTag
   rw [findKey_groupFold]
   simp [findKey, List.map_flatMap, List.map_map, Function.comp_def]
+
+theorem filter_beq_length_of_nodup (key : Str) : ∀ ks : List Str, ks.Nodup →
+    (ks.filter (fun k => k == key)).length = if key ∈ ks then 1 else 0 := by
+  intro ks
+  induction ks with
+  | nil => intro _; simp
+  | cons k ks ih =>
+    intro hnd
+    rw [List.nodup_cons] at hnd
+    simp only [List.filter_cons, List.mem_cons]
+    by_cases h : k = key
+    · subst h
+      have : ¬ k ∈ ks := hnd.1
+      simp [ih hnd.2, this]
+    · have h' : ¬ key = k := fun e => h e.symm
+      simp [h, h', ih hnd.2]
+
+/-- An operation's distinct keys contain `key` once or not at all. -/
+theorem opKeys_filter_length (u : UInfo) (o : IROp) (key : Str) :
+    ((opKeys u o).filter (fun k => k == key)).length = if key ∈ (opTags o).map (normTagKey u) then 1 else 0 := by
+  rw [filter_beq_length_of_nodup key _ (opKeys_nodup u o)]
+  simp only [mem_opKeys]
 
 /-- Each normalised tag key names one client. -/
 theorem clients_keys_nodup (u : UInfo) (direct : Bool) (ops : List IROp) :
@@ -692,47 +793,32 @@ theorem map_snd_zip_of_length {α β : Type} : ∀ (l : List α) (r : List β), 
     | nil => simp at h
     | cons b r => simp [ih r (by simpa using h)]
 
-/-- The client of `key` defines the final method name of an operation once per tag of that operation that normalises to
-    `key` - every list of operations (the names are pairwise different, `finalMethodNames_nodup`). -/
+/-- The client of `key` defines the final method name of an operation exactly ONCE when the operation has a tag that normalises
+    to `key` (however many spellings of it), and not at all otherwise - every list of operations (the names are pairwise
+    different, `finalMethodNames_nodup`). -/
 theorem clientMethods_count_zip (u : UInfo) (direct : Bool) (ops : List IROp) (key : Str)
     (p : IROp × Str) (hp : p ∈ ops.zip (finalMethodNames direct ops)) :
-    (clientMethods u direct ops key).count p.2 = ((opTags p.1).map (normTagKey u)).count key := by
+    (clientMethods u direct ops key).count p.2 = if key ∈ (opTags p.1).map (normTagKey u) then 1 else 0 := by
   rw [clientMethods_eq]
   simp only [List.map_const']
   have hnd : ((ops.zip (finalMethodNames direct ops)).map (·.2)).Nodup := by
     rw [map_snd_zip_of_length _ _ (finalMethodNames_length direct ops).symm]
     exact finalMethodNames_nodup direct ops
   have := count_flatMap_unique (fun it : IROp × Str => it.2)
-    (fun it => ((opTags it.1).filter (fun t => normTagKey u t == key)).length) _ hnd p hp
+    (fun it => ((opKeys u it.1).filter (fun k => k == key)).length) _ hnd p hp
   rw [this]
-  generalize opTags p.1 = ts
-  induction ts with
-  | nil => rfl
-  | cons t ts ih =>
-    simp only [List.filter_cons, List.map_cons, List.count_cons]
-    by_cases h : normTagKey u t = key
-    · simp [h, ih]
-    · simp [h, ih]
+  exact opKeys_filter_length u p.1 key
 
-/-- With pairwise distinct sanitised ids, the client of `key` defines the method of `o` once per tag of
-    `o` that normalises to `key`. -/
+/-- With pairwise distinct sanitised ids, the client of `key` defines the method of `o` once when `o` has a tag that
+    normalises to `key`. -/
 theorem clientMethods_count (u : UInfo) (direct : Bool) (ops : List IROp) (key : Str)
     (hnd : (ops.map (fun o => sanMethod o.opId)).Nodup) (o : IROp) (ho : o ∈ ops) :
     (clientMethods u direct ops key).count (sanMethod o.opId)
-      = ((opTags o).map (normTagKey u)).count key := by
-  rw [clientMethods_eq, finalMethodNames_of_nodup direct ops hnd, zip_map_self, List.flatMap_map]
-  simp only [List.map_const']
-  have := count_flatMap_unique (fun o : IROp => sanMethod o.opId)
-    (fun o => ((opTags o).filter (fun t => normTagKey u t == key)).length) ops hnd o ho
-  rw [this]
-  generalize opTags o = ts
-  induction ts with
-  | nil => rfl
-  | cons t ts ih =>
-    simp only [List.filter_cons, List.map_cons, List.count_cons]
-    by_cases h : normTagKey u t = key
-    · simp [h, ih]
-    · simp [h, ih]
+      = if key ∈ (opTags o).map (normTagKey u) then 1 else 0 := by
+  have hz : (o, sanMethod o.opId) ∈ ops.zip (finalMethodNames direct ops) := by
+    rw [finalMethodNames_of_nodup direct ops hnd, zip_map_self]
+    exact List.mem_map.2 ⟨o, ho, rfl⟩
+  exact clientMethods_count_zip u direct ops key (o, sanMethod o.opId) hz
 
 /-! ### Quoted vs. unquoted status keys (C19) -/
 
